@@ -115,18 +115,18 @@ func Build(s PktSpec) ([]byte, error) {
 
 // Parsed is the decoded view of a raw packet used for projections.
 type Parsed struct {
-	S        slayers.SCION
-	PT       string // scion | epic | ohp | empty | other
-	Dec      *scion.Decoded
-	OHP      *onehop.Path
-	MetaOff  int // byte offset of the SCION path meta header (after the EPIC header, if any)
-	PathOff  int // byte offset of the path in the packet
-	SrcHost  string
-	DstHost  string
-	Err      string
-	L4       slayers.L4ProtocolType
-	L4Off    int // offset of the L4 header
-	RawLen   int
+	S       slayers.SCION
+	PT      string // scion | epic | ohp | empty | other
+	Dec     *scion.Decoded
+	OHP     *onehop.Path
+	MetaOff int // byte offset of the SCION path meta header (after the EPIC header, if any)
+	PathOff int // byte offset of the path in the packet
+	SrcHost string
+	DstHost string
+	Err     string
+	L4      slayers.L4ProtocolType
+	L4Off   int // offset of the L4 header
+	RawLen  int
 }
 
 // Parse decodes the SCION header of raw; it uses slayers only as a decoder of observed bytes.
